@@ -63,7 +63,7 @@ func (cumulus) Generate(r *rand.Rand, o Opts) *Statement {
 		}
 		day += cal.Day(r.Intn(3))
 		booked := day + cal.Day(r.Intn(4))
-		amt := randCents(r)
+		amt := randCentsOrZero(r, st)
 		desc := tg.free()
 		credit := r.Intn(7) == 0
 		var cr, db string
